@@ -12,7 +12,9 @@ own constraint objects is modelled in `PGA/Model/Match.lean`.
 `readFragment : Ast → Except ReadErr Query` follows the reader on every tree the parser can
 produce (the grammar of `Grammar.py`).  On trees the parser cannot produce (a node of the wrong
 name or arity where the Python has an `assert`) it answers `ReadErr.shape`.  Error outcomes:
-`reader` = `RINGReaderError`, `notImplemented` = `NotImplementedError`.
+`reader` = `RINGReaderError`, `notImplemented` = `NotImplementedError`, `internal` = `TypeError` (FM2).
+A label declared twice is accepted and later references go to its first declaration, as in the code
+(shipped scheme files rely on it).
 -/
 namespace PGA
 
@@ -132,6 +134,8 @@ inductive ReadErr where
   | notImplemented
   /-- a tree the parser cannot produce (Python: failed `assert`, `IndexError`, …) -/
   | shape
+  /-- an exception that is not a RING error on a tree the parser *can* produce (`TypeError`) -/
+  | internal
   deriving DecidableEq, Repr, Inhabited
 
 /-! ## Typed shape of a `Fragment` tree -/
@@ -276,7 +280,8 @@ def ofAst (t : Ast) : Except ReadErr Frag := do
     | .node "Fragment" cs => pure cs
     | _ => throw .shape
   match frag with
-  | [.node "Prefix" p, .node _ nm, .node "MolQuery" mq] => do
+  | [.node "Prefix" p, .node nn nm, .node "MolQuery" mq] => do
+    if !(nn == "FragmentName" || nn == "ReactantName" || nn == "GroupName") then throw .shape
     let pre ← leaves p
     let name ← leaf1 nm
     let (atom, chain) ← match mq with
@@ -442,6 +447,9 @@ def hasBond (st : St) (i j : Nat) : Bool :=
 def step (st : St) : RawItem → Except ReadErr St
   | .bonded ty l b to ch => do
     let t ← atomType ty
+    -- the duplicate-label guard tests the token name `'AtomLabel'` instead of the label: duplicates pass, and
+    -- once an atom is *called* `AtomLabel` the guard fires and building its message raises `TypeError` (FM2)
+    if st.names.contains "AtomLabel" then throw .internal
     let idx := st.atoms.length
     let names := st.names ++ [l]
     let j ← lookup names to
